@@ -96,7 +96,7 @@ def history_cases(ctx: Ctx) -> list[dict]:
     cases = []
     if ctx.quick:
         plan = [("MC_TypeSystem_hist.cfg", "histories_exhaustive_2_classes_depth2")]
-        n_sim, depth = 80, 11
+        n_sim, depth = 30, 10
     else:
         plan = [("MC_TypeSystem_hist.cfg", "histories_exhaustive_2_classes_depth2"),
                 ("MC_TypeSystem_hist_n3.cfg", "histories_exhaustive_3_classes_depth2")]
@@ -117,11 +117,14 @@ def history_cases(ctx: Ctx) -> list[dict]:
     return cases
 
 
-def run_histories(ctx: Ctx) -> None:
-    cases = history_cases(ctx)
+def run_histories(ctx: Ctx, cases: list[dict] | None = None) -> None:
+    if cases is None:
+        cases = history_cases(ctx)
     d = ctx.work / "hmods"
     d.mkdir(parents=True, exist_ok=True)
-    jobs = [(c, str(d), f"tsh_{i}_{p.lower()}", p) for i, c in enumerate(cases) for p in ("G", "R")]
+    # thorough: every history under both providers; quick: providers alternate over the histories
+    jobs = [(c, str(d), f"tsh_{i}_{p.lower()}", p) for i, c in enumerate(cases) for p in ("G", "R")
+            if not ctx.quick or (i % 2 == 0) == (p == "G")]
     ctx.rng("order").shuffle(jobs)            # long and short histories spread evenly over the TLC chunks
     traces = parallel_map(ad.replay_history, jobs, procs=8, chunksize=16)
     ctx.notes["history_traces"] = len(traces)
@@ -164,18 +167,19 @@ def run(ctx: Ctx) -> None:
                        "generated type)",
                        "histories use plain instance types over the analysed classes; edges keep the graph acyclic"]
     # design: static laws + cache machine, both providers; deviation models must fail as expected
+    from concurrent.futures import ThreadPoolExecutor
+    base.make_threadsafe(ctx)
+    _ = ctx.work            # create the scratch directory before any thread needs it
+    pool = ThreadPoolExecutor(max_workers=2)
     suffix = "" if ctx.quick else "_thorough"
     main_cfg = "TypeSystem.cfg" if ctx.quick else "TypeSystem_thorough.cfg"
-    res = base.design_runs(ctx, [main_cfg, "TypeSystem_dev_static.cfg", f"TypeSystem_cache{suffix}.cfg",
-                                 f"TypeSystem_cacheR{suffix}.cfg", "TypeSystem_dev_cache.cfg"],
-                           expect_violation=("TypeSystem_dev_cache.cfg",))
-    base.check_deviation_model(ctx, res["TypeSystem_dev_static.cfg"])
-    got = {v.name for v in res["TypeSystem_dev_cache.cfg"].violations}
-    if got != {"CacheCoherent"}:
-        raise MachineryError("the cache machine with NoClearOnAddEdge/NoClearOnAddGenerator must violate "
-                             f"CacheCoherent, TLC reported {sorted(got)}")
+    design = pool.submit(base.design_runs, ctx,
+                         [main_cfg, "TypeSystem_dev_static.cfg", f"TypeSystem_cache{suffix}.cfg",
+                          f"TypeSystem_cacheR{suffix}.cfg", "TypeSystem_dev_cache.cfg"],
+                         ("TypeSystem_dev_cache.cfg",))       # overlaps with the replays below
     # static part
     jobs = base.hierarchy_cases(ctx)
+    hist_cases = pool.submit(history_cases, ctx)   # TLC enumerates the histories while the static part runs
     if ctx.quick:      # C25 quick runs all of them; here every second hierarchy keeps the tier within budget
         jobs = jobs[::2]
     else:              # all 3-class hierarchies, every second of the sampled / simulated larger ones
@@ -199,7 +203,14 @@ def run(ctx: Ctx) -> None:
                 "offered_RandomGeneratorProvider": [[ev["gens"][g - 1]["name"] for g in row][:8]
                                                     for row in ev["offR"][:12]]})
     # histories
-    run_histories(ctx)
+    run_histories(ctx, hist_cases.result())
+    res = design.result()
+    pool.shutdown()
+    base.check_deviation_model(ctx, res["TypeSystem_dev_static.cfg"])
+    got = {v.name for v in res["TypeSystem_dev_cache.cfg"].violations}
+    if got != {"CacheCoherent"}:
+        raise MachineryError("the cache machine with NoClearOnAddEdge/NoClearOnAddGenerator must violate "
+                             f"CacheCoherent, TLC reported {sorted(got)}")
 
 
 def replay(ctx: Ctx, rec: dict) -> int:
